@@ -3,6 +3,7 @@
   `applyFul`.
 -/
 import Sge.Gen.Kernels
+import SgeProofs.Lemmas.KernelsTie
 import Sge.Core.Orderbook
 namespace Sge.KernelsTie
 open Sge Sge.Core Sge.Gen.Kernels
@@ -15,8 +16,7 @@ theorem krn_tie_ExposureSetCurrentRound (oddsCur : Nat) (p : Part) (e : PExp) (b
                bet := (orderbook_ParticipationExposure_SetCurrentRound e.exposure e.bet bAmt π).2 } := by
   first
     | rfl
-    | (unfold applyFul orderbook_ParticipationExposure_SetCurrentRound
-       simp only [PExp.mk.injEq, true_and, and_true]; constructor <;> omega)
+    | (unfold applyFul orderbook_ParticipationExposure_SetCurrentRound; krn_close [PExp.mk.injEq])
 
 example : orderbook_ParticipationExposure_SetCurrentRound 100 50 20 7 = (107, 70) := by decide +kernel
 
